@@ -55,7 +55,7 @@ import TaRs.Lemmas.RelativeStrengthIndex
 import TaRs.Lemmas.MovingAverageConvergenceDivergence
 import TaRs.Lemmas.PercentagePriceOscillator
 import TaRs.Lemmas.BollingerBands
-import TaRs.Lemmas.TrueRange
+import TaRs.Lemmas.Core.TrueRange
 import TaRs.Lemmas.AverageTrueRange
 import TaRs.Lemmas.FastStochastic
 import TaRs.Lemmas.SlowStochastic
@@ -63,7 +63,7 @@ import TaRs.Lemmas.KeltnerChannel
 import TaRs.Lemmas.ChandelierExit
 import TaRs.Lemmas.CommodityChannelIndex
 import TaRs.Lemmas.MoneyFlowIndex
-import TaRs.Lemmas.OnBalanceVolume
+import TaRs.Lemmas.Core.OnBalanceVolume
 import TaRs.Lemmas.Reset.SlowStochastic
 import TaRs.Lemmas.Misc.SlowStochastic
 import TaRs.Lemmas.Reset.RateOfChange
